@@ -638,9 +638,44 @@ func H_C05_FlushVsCompaction() {
 		vrt.OnSync(func(kind string) {})
 		h.runPending()
 	} else {
-		// natively: compaction cycle first, then the stalled flusher gets its token
-		h.compactionCycleBody()
-		h.flushStepNow()
+		// natively the most adversarial of these schedules is forced: the merge runs, the reflection is started
+		// and held inside its first reader Close (a gated wrapper around the oldest reader), the stalled flusher
+		// gets its token and runs as far as it can (on the unchanged tree it stops at the manager lock the
+		// reflection holds), then the reflection is let go
+		meta, cerr := executeCompaction(h.db)
+		vrt.Assert(cerr == nil && meta != nil, "fc/compaction-no-error")
+		cg := make(chan struct{})
+		h.db.sstableManager.managerLock.Lock()
+		h.db.sstableManager.allSSTableReaders[0] = &vGatedReader{SSTableReaderI: h.db.sstableManager.allSSTableReaders[0], gate: cg}
+		h.db.sstableManager.managerLock.Unlock()
+		c := h.start(func() {
+			vrt.Assert(h.db.sstableManager.reflectCompactionResult(meta) == nil, "fc/reflect-no-error")
+		})
+		vWaitUntil(func() bool {
+			for _, st := range vrt.GoroutineStates("vGatedReader).Close") {
+				if st == "chan receive" {
+					return true
+				}
+			}
+			return c.finished()
+		})
+		if vFlusherStalled() {
+			h.gate <- struct{}{}
+		}
+		vWaitUntil(func() bool {
+			for _, st := range vrt.GoroutineStates("simpledb.flushMemstoreContinuously") {
+				if !vrt.Parked(st) {
+					return false
+				}
+			}
+			return true
+		})
+		close(cg)
+		<-c.done
+		if c.pnc != nil {
+			panic(c.pnc)
+		}
+		vWaitUntil(func() bool { return !vFlusherStalled() && vFlusherSettled() })
 	}
 	h.checkReads("fc/reads-after-the-cycle")
 	// the next rotation replaces the rotated-out memstore: only the tables answer for the third memstore now
@@ -686,4 +721,25 @@ func (h *vDB) forceRotationGated() {
 		vrt.Assert(err == nil, "db/rotation-no-error")
 	})
 	h.flushStepNow()
+}
+
+// vGatedReader (native runs): a table reader whose Close waits for a gate.
+type vGatedReader struct {
+	sstables.SSTableReaderI
+	gate chan struct{}
+}
+
+func (r *vGatedReader) Close() error {
+	<-r.gate
+	return r.SSTableReaderI.Close()
+}
+
+func vWaitUntil(cond func() bool) {
+	deadline := time.Now().Add(30 * time.Second)
+	for !cond() {
+		if time.Now().After(deadline) {
+			panic("verif: native schedule did not reach the expected point")
+		}
+		time.Sleep(200 * time.Microsecond)
+	}
 }
